@@ -24,6 +24,19 @@ class BodyError(Exception):
     """raised by the body of a with-block"""
 
 
+class RefusingLogin:
+    """a device that never lets anybody in: it asks for the password (ssh) / login name (telnet) and answers every line with
+    'Permission denied' and the same question -- in-channel authentication gives up with ScrapliAuthenticationFailed while the
+    transport is up and the session alive"""
+    exec_log: list = []
+
+    def connect(self):
+        return b"login: \nPassword: "
+
+    def on_write(self, data):
+        return b"\nPermission denied, please try again.\nlogin: \nPassword: " if b"\n" in data else b""
+
+
 class TransportCloseError(Exception):
     """what an injected failing transport.close() raises (stands for PtyProcessError 'Could not terminate the child.')"""
 
@@ -99,8 +112,8 @@ class FakeNet:
     """the 'network' behind the fake sockets of one connection: a causal device per session, fault plans
     counted in recv()/send() calls of the current operation"""
 
-    def __init__(self, platform, neg, partial=False):
-        self.platform, self.neg, self.partial = platform, neg, partial
+    def __init__(self, platform, neg, partial=False, refuse_login=False):
+        self.platform, self.neg, self.partial, self.refuse_login = platform, neg, partial, refuse_login
         self.device = None
         self.buf = bytearray()
         self.connected = False       # a session exists at the device end and the link is up
@@ -120,7 +133,7 @@ class FakeNet:
             self.refuse_next_open = False
             self.trace.append(("open-refused",))
             raise ConnectionRefusedError("fake: connection refused")
-        self.device = CliDevice(self.platform) if self.platform != "generic" else CliDevice("cisco_iosxe")
+        self.device = RefusingLogin() if self.refuse_login else (CliDevice(self.platform) if self.platform != "generic" else CliDevice("cisco_iosxe"))
         self.buf = bytearray(bytes([IAC, DO, 1 + i % 40][j] for i in range(self.neg) for j in range(3)) + self.device.connect())
         self.connected, self.dead, self.silent = True, False, False
         handle = [True]
@@ -270,6 +283,7 @@ class Rig:
         self.in_timeout = False
         self.on_close_raised = False
         self.tclose_raised = False
+        self.injected_hook_exc = None
         self.dead_seen = False
         self.tmpdir = tmpdir
         self.user_bio: Optional[io.BytesIO] = None
@@ -293,6 +307,8 @@ class Rig:
                 kw[which] = self._user_hook(False)
             elif h == "raise":
                 kw[which] = self._user_hook(True)
+            elif h.startswith("raise:"):
+                kw[which] = self._user_hook(h.split(":", 1)[1])
         if self.kind == "sim":
             kw["transport"] = case.get("tname") or ("system" if self.stack == "sync" else "asyncssh")
         else:
@@ -302,7 +318,7 @@ class Rig:
             if case.get(which, "default") == "none":
                 setattr(self.conn, which, None)
         devplat = platform if platform in PLAT else "cisco_iosxe"
-        self.device = CliDevice(devplat)
+        self.device = CliDevice(devplat) if case.get("login") != "refuse" else RefusingLogin()
         if self.kind == "sim":
             tcls = TSim if self.stack == "sync" else TAsyncSim
             on_empty = "block" if case.get("stallmode") == "real" else "stall"
@@ -310,22 +326,33 @@ class Rig:
             attach(self.conn, self.t)
             self.net = self.t
         else:
-            self.net = FakeNet(devplat, case.get("neg", 0), case.get("partial", False))
+            self.net = FakeNet(devplat, case.get("neg", 0), case.get("partial", False), case.get("login") == "refuse")
             self.t = self.conn.transport
             self._install_fake_net()
         self._instrument()
 
     # ---- user hooks
     def _user_hook(self, raises):
+        """raises: False | True (HookError) | name of the exception class the hook raises (a scrapli class or a builtin)"""
         rig = self
+
+        def boom():
+            if raises is True:
+                raise HookError("user hook failed")
+            import builtins
+            import scrapli.exceptions as E
+            cls = getattr(E, raises, None) or getattr(builtins, raises)
+            rig.injected_hook_exc = raises
+            raise cls("user hook failed")
+
         if self.stack == "sync":
             def hook(conn):
                 if raises:
-                    raise HookError("user hook failed")
+                    boom()
         else:
             async def hook(conn):
                 if raises:
-                    raise HookError("user hook failed")
+                    boom()
         return hook
 
     # ---- fake network for the real telnet transports
@@ -696,6 +723,8 @@ def derive_events(seg, kind):
         elif x[0] == "stallfire":
             if cur is not None:
                 evs[cur][0] = "s"
+        elif x[0] == "actend" and x[2] == "ScrapliAuthenticationFailed" and cur is not None and evs[cur][0] == "o":
+            evs[cur][0] = "a"       # the device refused the login during this step
         elif x[0] == "actend" and kind != "sim":
             # the Telnet transport reported the lost connection itself (no timer involved)
             if cur is not None and x[2] == "ScrapliConnectionError" and evs[cur][0] == "o":
@@ -726,7 +755,7 @@ def _result(rig, op, out, seg_start, fds0, thr0):
     fl["fd_delta"] = fd_count() - fds0
     fl["thr_delta"] = threading.active_count() - thr0
     return dict(op=op, out=out, marks=list(rig.marks), flags=fl, seg=list(rig.net.trace[seg_start:]),
-                on_close_raised=rig.on_close_raised, tclose_raised=rig.tclose_raised, nreads=rig.net.nreads, nwrites=rig.net.nwrites)
+                on_close_raised=rig.on_close_raised, tclose_raised=rig.tclose_raised, injected_hook_exc=rig.injected_hook_exc, nreads=rig.net.nreads, nwrites=rig.net.nwrites)
 
 
 def _operate_sync(rig, conn):
@@ -766,6 +795,7 @@ def run_case_sync(case, rig_factory=None):
                 rig.marks = []
                 rig.on_close_raised = False
                 rig.tclose_raised = False
+                rig.injected_hook_exc = None
                 seg_start = len(rig.net.trace)
                 r0, w0 = rig.net.nreads, rig.net.nwrites
                 rig.arm(spec.get("fault"))
@@ -836,6 +866,7 @@ async def run_case_async(case, rig_factory=None):
                 rig.marks = []
                 rig.on_close_raised = False
                 rig.tclose_raised = False
+                rig.injected_hook_exc = None
                 seg_start = len(rig.net.trace)
                 r0, w0 = rig.net.nreads, rig.net.nwrites
                 rig.arm(spec.get("fault"))
